@@ -1,11 +1,13 @@
 import Texel.Proofs.SnapF
+import Texel.Proofs.Direction
 /-! # C07 — deterministic and independent of how the polygon is written down
 
 The model is a function, so "same input, same output" holds by construction *of the model*; that the implementation is a
 function as well (Go randomises map iteration) is what the correspondence and the repetition / fresh-process runs of the
 harness check. Proved here: requesting reversed winding order changes nothing except the direction of every returned
-polygon ring; appended points and lines are unchanged. Invariance under writing a ring in the opposite direction is
-evaluated by the harness on every valid case (`independent-of-ring-direction`). Core-only proofs. -/
+polygon ring; appended points and lines are unchanged. Writing any subset of the rings in the opposite direction
+returns the same result, for every polygon whose rings have non-zero area (every valid polygon): `C07_ring_direction`; the harness
+evaluates the same on the implementation for every valid case (`independent-of-ring-direction`). -/
 namespace Texel.C07
 open Texel
 
@@ -65,5 +67,17 @@ theorem C07_flag_presence (g : Grid) (hot : Nat → Quad → Bool) (keep io : Bo
             simpa [reversePolys, Array.size_append] using h0
           rw [if_pos this]
         · simp at h
+
+/-- **C07 (ring direction)**: giving any of the rings in the opposite direction returns identical geometry — every grid, every level
+set, every combination of flags, every polygon all of whose rings have non-zero signed area (in particular every valid polygon) -/
+theorem C07_ring_direction (g : Grid) (rings rings' : List (List Pt)) (levels : List Nat) (cfg : Config)
+    (h : SomeReversed rings rings') (ha : ∀ r ∈ rings, area2 (ptsToPs r) ≠ 0) :
+    snapPolygonF g rings' levels cfg = snapPolygonF g rings levels cfg :=
+  snapPolygonF_reverse g rings rings' levels cfg h ha
+
+-- non-vacuity: a shell written clockwise and a hole written counter-clockwise are `SomeReversed` versions of the normal form
+example : SomeReversed [[⟨8, 8⟩, ⟨200, 8⟩, ⟨200, 200⟩], [⟨60, 60⟩, ⟨60, 140⟩, ⟨140, 140⟩]] [[⟨200, 200⟩, ⟨200, 8⟩, ⟨8, 8⟩], [⟨60, 60⟩, ⟨60, 140⟩, ⟨140, 140⟩]] :=
+  .cons (Or.inr rfl) (.cons (Or.inl rfl) .nil)
+#guard area2 (ptsToPs [⟨8, 8⟩, ⟨200, 8⟩, ⟨200, 200⟩]) != 0
 
 end Texel.C07
